@@ -18,7 +18,7 @@
       (`enforced_eq_advertised`), MAX_STREAMS (`streams_enforced_eq_advertised`)
       and MAX_STREAM_DATA (`stream_enforced_eq_advertised`).
 -/
-import AQ.Proofs.FlowStreamAdv2
+import AQ.Proofs.FlowStreamIds
 
 namespace AQ.Props.C07
 open AQ AQ.Stream AQ.Flow
@@ -148,6 +148,80 @@ theorem reset_final_size_iff (c c' : Conn) (st : Strm) (sid z : Nat) (hrecv : c.
     have : z ≤ st.maxLocal ∧ c'.localMaxData.used + (z - st.recv.highest) ≤ c'.localMaxData.value := by omega
     split <;> simp_all
 
+/-! ## every frame type that names a stream id -/
+
+/-- "a stream beyond a limit … stream-limit error", for ALL frame types that name
+    a stream id: RESET_STREAM, STOP_SENDING, MAX_STREAM_DATA and STREAM_DATA_BLOCKED
+    (STREAM: `stream_limit_iff`) are answered with STREAM_LIMIT_ERROR **iff** the
+    frame may use the stream in that direction and names a never-opened (and never
+    discarded) peer-initiated stream whose count exceeds the stream-count limit in
+    force (`OverStreamLimit`). -/
+theorem stream_id_frames_limit_iff (c : Conn) (sid z v : Nat) :
+    ((rxResetStream c sid z).2.err = some (.conn STREAM_LIMIT_ERROR) ↔
+        (c.canReceive sid = true ∧ OverStreamLimit c sid)) ∧
+    ((rxStopSending c sid).2.err = some (.conn STREAM_LIMIT_ERROR) ↔
+        (c.canSend sid = true ∧ OverStreamLimit c sid)) ∧
+    ((rxMaxStreamData c sid v).2.err = some (.conn STREAM_LIMIT_ERROR) ↔
+        (c.canSend sid = true ∧ OverStreamLimit c sid)) ∧
+    ((rxStreamDataBlocked c sid).2.err = some (.conn STREAM_LIMIT_ERROR) ↔
+        (c.canReceive sid = true ∧ OverStreamLimit c sid)) := by
+  refine ⟨rxResetStream_limit_iff c sid z, ?_, ?_, ?_⟩
+  · rw [rxStopSending_err, ← getErrOf_limit_iff]
+    by_cases h : c.canSend sid = true <;> simp [h, STREAM_STATE_ERROR, STREAM_LIMIT_ERROR]
+  · rw [rxMaxStreamData_err, ← getErrOf_limit_iff]
+    by_cases h : c.canSend sid = true <;> simp [h, STREAM_STATE_ERROR, STREAM_LIMIT_ERROR]
+  · rw [rxStreamDataBlocked_err, ← getErrOf_limit_iff]
+    by_cases h : c.canReceive sid = true <;> simp [h, STREAM_STATE_ERROR, STREAM_LIMIT_ERROR]
+
+/-- wrong direction / wrong initiator, for the frames that carry no other check:
+    STOP_SENDING, MAX_STREAM_DATA, STREAM_DATA_BLOCKED are answered with
+    STREAM_STATE_ERROR **iff** the stream cannot be used in that direction, or it
+    is a stream only this endpoint may open and has not opened (`WrongInitiator`);
+    and they raise nothing else than these two codes. -/
+theorem stream_id_frames_state_iff (c : Conn) (sid v : Nat) :
+    ((rxStopSending c sid).2.err = some (.conn STREAM_STATE_ERROR) ↔
+        (c.canSend sid = false ∨ WrongInitiator c sid)) ∧
+    ((rxMaxStreamData c sid v).2.err = some (.conn STREAM_STATE_ERROR) ↔
+        (c.canSend sid = false ∨ WrongInitiator c sid)) ∧
+    ((rxStreamDataBlocked c sid).2.err = some (.conn STREAM_STATE_ERROR) ↔
+        (c.canReceive sid = false ∨ WrongInitiator c sid)) := by
+  refine ⟨?_, ?_, ?_⟩
+  · rw [rxStopSending_err, ← getErrOf_state_iff]
+    by_cases h : c.canSend sid = true <;> simp [h]
+  · rw [rxMaxStreamData_err, ← getErrOf_state_iff]
+    by_cases h : c.canSend sid = true <;> simp [h]
+  · rw [rxStreamDataBlocked_err, ← getErrOf_state_iff]
+    by_cases h : c.canReceive sid = true <;> simp [h]
+
+/-! ## limit enforcement stays in force until the receive half has finished -/
+
+/-- the write loop discards a stream (after which frames for it are ignored)
+    **iff** both halves are finished; after any operation sequence the receive half
+    of such a stream has a fixed final size, i.e. it finished by a FIN that was
+    reached or by RESET_STREAM — never because STOP_SENDING was written. -/
+theorem discard_only_when_receive_finished (c0 : Conn)
+    (hf : c0.quirks.resetKeepsHighest = false ∧ c0.streams = [] ∧ c0.localMaxData.used = 0 ∧ c0.goneRecv = 0)
+    (ops : List Op) (sid : Nat) (a b : Bool) (fs : Int) :
+    (serve (runState c0 ops) sid a b fs).2.discarded = true ↔
+      ∃ st, (runState c0 ops).find? sid = some st ∧ st.recv.finished = true ∧
+        st.recv.finalSize.isSome = true ∧ st.send.finished = true := by
+  have h := run_rinv (rinv_init c0 hf.1 hf.2.1 hf.2.2.1 hf.2.2.2) ops
+  rw [serve_discarded_iff]
+  constructor
+  · rintro ⟨st, h1, h2, h3⟩
+    exact ⟨st, h1, h2, (h.strm st (Conn.find?_mem h1).1).2.2 h2, h3⟩
+  · rintro ⟨st, h1, h2, _, h3⟩
+    exact ⟨st, h1, h2, h3⟩
+
+/-- `_streams_finished` (the ids whose frames are ignored) grows only by such a
+    discard: for every operation, either it is unchanged or exactly one id is
+    added, that of a live stream whose two halves are finished. -/
+theorem ignored_only_after_discard (c : Conn) (hq : FixedQ c) (op : Op) :
+    (step c op).1.finishedIds = c.finishedIds ∨
+    ∃ sid st, (step c op).1.finishedIds = sid :: c.finishedIds ∧ c.find? sid = some st ∧
+      st.recv.finished = true ∧ st.send.finished = true :=
+  step_finishedIds c hq op
+
 /-! ## enforced limit = largest value ever advertised -/
 
 /-- "beyond a limit this endpoint has advertised": the connection-level limit
@@ -235,7 +309,7 @@ theorem reassembly_bound (c0 : Conn) (hf : Fresh c0) (ops : List Op) :
   · have := bufferedBytes_le_sumRh h.strm
     have := h.ledger; have := h.within; omega
   · intro s hs
-    obtain ⟨a, b, _⟩ := h.strm s hs
+    obtain ⟨a, ⟨b, _⟩, _⟩ := h.strm s hs
     omega
 
 /-- handshake data: whatever CRYPTO frames arrive in an epoch, at most
@@ -291,6 +365,10 @@ end AQ.Props.C07
 #print axioms AQ.Props.C07.stream_final_size_iff
 #print axioms AQ.Props.C07.stream_never_accused_iff
 #print axioms AQ.Props.C07.stream_limit_iff
+#print axioms AQ.Props.C07.stream_id_frames_limit_iff
+#print axioms AQ.Props.C07.stream_id_frames_state_iff
+#print axioms AQ.Props.C07.discard_only_when_receive_finished
+#print axioms AQ.Props.C07.ignored_only_after_discard
 #print axioms AQ.Props.C07.reset_flow_control_iff
 #print axioms AQ.Props.C07.reset_final_size_iff
 #print axioms AQ.Props.C07.enforced_eq_advertised
